@@ -1570,10 +1570,8 @@ def _setattr_wrapper(setattr_: Callable, expected_keys: set[str]) -> Callable:
             if (
                 "_tensordict" not in __dict__
                 or "_non_tensordict" not in __dict__
-                or (
-                    not self._shadow
-                    and (key in SET_ATTRIBUTES or key in type(self).__dict__)
-                )
+                or (key in SET_ATTRIBUTES and key not in expected_keys)
+                or (not self._shadow and key in type(self).__dict__)
             ):
                 # if we ever decide to allow anything to be written in a tc
                 # or key not in self.__dataclass_fields__):
